@@ -21,6 +21,11 @@ ValsT(ty) == CASE ty = "u8"    -> {FV(TRUE, 7, <<>>, <<>>), FV(TRUE, 200, <<>>, 
                                    FV(TRUE, 0, <<>>, [var |-> 3, fv |-> <<FV(TRUE, 3, <<>>, <<>>), FV(TRUE, 0, <<>>, <<>>)>>])}
                [] ty = "e2u"   -> {FV(TRUE, 0, <<>>, [var |-> 1, fv |-> <<None, None>>]), FV(TRUE, 0, <<>>, [var |-> 1, fv |-> <<FV(TRUE, 3, <<>>, <<>>), FV(TRUE, 0, <<120>>, <<>>)>>]),
                                    FV(TRUE, 0, <<>>, [var |-> 2, fv |-> <<FV(TRUE, 9, <<>>, <<>>)>>])}
+               [] ty \in {"e2m", "e2a"} -> {FV(TRUE, 0, <<>>, [var |-> 1, fv |-> <<>>]), FV(TRUE, 0, <<>>, [var |-> 2, fv |-> <<FV(TRUE, 9, <<>>, <<>>)>>])}
+               [] ty = "e2mu"  -> {FV(TRUE, 0, <<>>, [var |-> 1, fv |-> <<None, None>>]), FV(TRUE, 0, <<>>, [var |-> 1, fv |-> <<FV(TRUE, 3, <<>>, <<>>), FV(TRUE, 0, <<120>>, <<>>)>>]),
+                                   FV(TRUE, 0, <<>>, [var |-> 2, fv |-> <<FV(TRUE, 9, <<>>, <<>>)>>])}
+               [] ty = "e2au"  -> {FV(TRUE, 0, <<>>, [var |-> 1, fv |-> <<None>>]), FV(TRUE, 0, <<>>, [var |-> 1, fv |-> <<FV(TRUE, 3, <<>>, <<>>)>>]),
+                                   FV(TRUE, 0, <<>>, [var |-> 2, fv |-> <<FV(TRUE, 9, <<>>, <<>>)>>])}
                [] ty = "io"    -> {FV(TRUE, 0, <<>>, [var |-> 1, fv |-> <<>>]), FV(TRUE, 0, <<>>, [var |-> 2, fv |-> <<>>])}
                [] ty = "iox"   -> {FV(TRUE, 0, <<>>, [var |-> 1, fv |-> <<>>]), FV(TRUE, 0, <<>>, [var |-> 3, fv |-> <<>>])}
 ValsF(f) == IF f.skip THEN {FV(TRUE, 0, <<>>, <<>>)}
@@ -47,18 +52,26 @@ ThreeFieldsQ == { S \in ThreeFields : (S.shape = "tuple" => S.fields[2].tag = -1
 Misc == { Struct(e, -1, "named", <<F(0, FALSE, -1, "u8"), FSkip(1), F(2, TRUE, -1, "str")>>) : e \in Encs }
         \cup { Transparent(F(0, FALSE, -1, ty)) : ty \in {"u8", "str", "inA", "e2"} }
         \cup { Struct(e, -1, "named", <<F(0, TRUE, 7, "cu"), F(1, TRUE, -1, "cu"), F(3, FALSE, -1, "cu")>>) : e \in Encs }
+\* optional fields that are not spelled Option<T>: boxed, through a type alias, through a type parameter - in structs of both encodings
+\* (as the last field, in the middle, tagged) and inside an enum variant
+OptSpell == { Struct(e, -1, "named", <<F(0, FALSE, -1, "u8"), Fo(1, t, ty, sp), F(3, o3, -1, "u8")>>) :
+                e \in Encs, t \in {-1, 7}, ty \in {"u8", "str"}, sp \in {"boxed", "alias", "generic"}, o3 \in BOOLEAN }
+            \cup { Struct(e, -1, "named", <<Fo(0, -1, "u8", sp)>>) : e \in Encs, sp \in {"boxed", "alias", "generic"} }
+            \cup { Enum(e, -1, FALSE, <<Variant(0, e, -1, "unit", <<>>), Variant(1, ve, -1, "named", <<F(0, FALSE, -1, "u8"), Fo(1, -1, "u8", sp)>>)>>) :
+                    e \in Encs, ve \in Encs, sp \in {"boxed", "alias"} }
 \* enums: unit / tuple / named variants, encoding at enum and variant level, tags at both levels, index_only
-EnumsF == { Enum(e, et, FALSE, <<Variant(0, ve, -1, "unit", <<>>), Variant(1, ve, vt, "tuple", <<F(0, o, ft, "u8"), F(1, TRUE, -1, "str")>>),
+EnumsF == { Enum(e, et, FALSE, <<Variant(0, ve, ut, "unit", <<>>), Variant(1, ve, vt, "tuple", <<F(0, o, ft, "u8"), F(1, TRUE, -1, "str")>>),
                                  Variant(5, e, -1, "named", <<F(1, FALSE, -1, "u8"), F(3, o, -1, "u8")>>)>>) :
-              e \in Encs, ve \in Encs, et \in {-1, 7}, vt \in {-1, 7}, o \in BOOLEAN, ft \in {-1, 7} }
+              e \in Encs, ve \in Encs, et \in {-1, 7}, vt \in {-1, 7}, ut \in {-1, 7}, o \in BOOLEAN, ft \in {-1, 7} }
 EnumsIO == { Enum("array", et, TRUE, <<Variant(0, "array", -1, "unit", <<>>), Variant(3, "array", -1, "unit", <<>>), Variant(24, "array", -1, "unit", <<>>)>>) : et \in {-1} }      \* (the macro rejects a tag on an index_only enum)
-EnumsQ == { S \in EnumsF : (S.tag = 7 => S.variants[2].tag = -1) /\ (S.variants[2].fields[1].tag = 7 => S.variants[2].tag = -1 /\ S.tag = -1) } \cup EnumsIO
+EnumsQ == { S \in EnumsF : (S.tag = 7 => S.variants[2].tag = -1) /\ (S.variants[2].fields[1].tag = 7 => S.variants[2].tag = -1 /\ S.tag = -1)
+                           /\ (S.variants[1].tag = 7 => S.tag = -1 /\ S.variants[2].tag = -1 /\ S.variants[2].fields[1].tag = -1) } \cup EnumsIO
 \* many fields: the 23/24 boundary of the container head
 Big(e) == Struct(e, -1, "named", [i \in 1..25 |-> F(i - 1, TRUE, -1, "u8")])
 BigVals == { [i \in 1..25 |-> IF i \in s THEN FV(TRUE, 7, <<>>, <<>>) ELSE None] : s \in {{}, {1}, {24}, {25}, {1, 25}, 1..23, 1..24, 1..25, 2..25} }
 
-Family == IF Tier = "quick" THEN { S \in OneFieldQ : S.fields[1].idx = 0 \/ S.fields[1].ty \in {"u8", "e2", "cu"} } \cup { S \in ThreeFieldsQ : S.shape = "named" } \cup Misc \cup EnumsQ
-          ELSE OneFieldQ \cup ThreeFieldsQ \cup Misc \cup EnumsQ
+Family == IF Tier = "quick" THEN { S \in OneFieldQ : S.fields[1].idx = 0 \/ S.fields[1].ty \in {"u8", "e2", "cu"} } \cup { S \in ThreeFieldsQ : S.shape = "named" } \cup Misc \cup EnumsQ \cup OptSpell
+          ELSE OneFieldQ \cup ThreeFieldsQ \cup Misc \cup EnumsQ \cup OptSpell
 
 \* ---- compatible changes (reader schemas derived from a writer schema) ----
 SetField(S, i, f) == [S EXCEPT !.fields[i] = f]
@@ -70,9 +83,10 @@ FreeIdx(S) == IF Tier = "quick" THEN { CHOOSE x \in FreeAll(S) : \A y \in FreeAl
 Readers(S) == { DropField(S, i) : i \in { j \in 1..Len(S.fields) : S.fields[j].opt } }
               \cup { AddField(S, F(n, TRUE, t, ty)) : n \in FreeIdx(S), t \in {-1, 7}, ty \in (IF Tier = "quick" THEN {"u8"} ELSE {"u8", "str"}) }
 \* nested enums used as optional fields: the writer knows more variants / has turned a unit variant into a struct variant
-EnumHosts == { Struct(e, -1, "named", <<F(0, FALSE, -1, "u8"), F(1, TRUE, -1, ty), F(2, TRUE, -1, "u8")>>) : e \in Encs, ty \in {"e2", "e2x", "e2u", "io", "iox"} }
-CompatTy(a, b) == a = b \/ {a, b} \in {{"e2", "e2x"}, {"e2", "e2u"}, {"io", "iox"}}
-HostReaders(S) == { SetField(S, 2, [S.fields[2] EXCEPT !.ty = ty]) : ty \in { t \in {"e2", "e2x", "e2u", "io", "iox"} : CompatTy(t, S.fields[2].ty) } }
+HostTys == {"e2", "e2x", "e2u", "io", "iox", "e2m", "e2mu", "e2a", "e2au"}
+EnumHosts == { Struct(e, -1, "named", <<F(0, FALSE, -1, "u8"), F(1, TRUE, -1, ty), F(2, TRUE, -1, "u8")>>) : e \in Encs, ty \in HostTys }
+CompatTy(a, b) == a = b \/ {a, b} \in {{"e2", "e2x"}, {"e2", "e2u"}, {"io", "iox"}, {"e2m", "e2mu"}, {"e2a", "e2au"}}
+HostReaders(S) == { SetField(S, 2, [S.fields[2] EXCEPT !.ty = ty]) : ty \in { t \in HostTys : CompatTy(t, S.fields[2].ty) } }
 PairWriters == IF Tier = "quick" THEN { S \in ThreeFieldsQ : S.shape = "named" /\ S.fields[3].idx \in {2, 5} } \cup EnumHosts ELSE ThreeFieldsQ \cup EnumHosts
 ReadersOf(S) == IF S \in EnumHosts THEN HostReaders(S) ELSE Readers(S) \cup { r2 : r2 \in UNION { Readers(r1) : r1 \in { x \in Readers(S) : Tier # "quick" } } }
 
@@ -93,12 +107,20 @@ Emit == /\ (ph' = "done") =>
              /\ (wsch'.kind = "struct" /\ ~wsch'.transparent) =>
                    /\ Case("dec", [schema |-> wsch', bytes |-> WiderTop(wsch', b), rel |-> "wider"], DecExp(wsch', wsch', wv', WiderTop(wsch', b)))
                    /\ Case("dec", [schema |-> wsch', bytes |-> IndefTop(wsch', b), rel |-> "indef"], DecExp(wsch', wsch', wv', IndefTop(wsch', b)))
+        \* C09: a wrong or missing tag anywhere in the encoding is an error, never a value
+        /\ (ph' = "done") =>
+             \A pt \in Perturbations(wsch', wv') :
+                Case("dec", [schema |-> wsch', bytes |-> DocEncP(wsch', wv', pt), rel |-> "badtag", pt |-> pt], [ok |-> FALSE, val |-> <<>>, pos |-> 0])
         /\ (ph' = "pdone") =>
              LET b == DocEnc(wsch, wv) IN
              \* forward: the reader rsch' decodes what the writer wsch wrote; backward: wsch decodes what rsch' writes (for values rsch' has)
              /\ Case("dec", [schema |-> rsch', bytes |-> b, rel |-> "fwd"], DecExp(wsch, rsch', wv, b))
+             \* the same through the real encoder of the writer type: whatever it writes, the reader must obtain the projected value
+             /\ Case("xdec", [schema |-> rsch', wschema |-> wsch, val |-> wv, rel |-> "xfwd"], DecExp(wsch, rsch', wv, b))
              /\ LET p == Project(wsch, rsch', wv) IN
-                p[1] = "ok" => LET b2 == DocEnc(rsch', p[2]) IN Case("dec", [schema |-> wsch, bytes |-> b2, rel |-> "bwd"], DecExp(rsch', wsch, p[2], b2))
+                p[1] = "ok" => LET b2 == DocEnc(rsch', p[2]) IN
+                               /\ Case("dec", [schema |-> wsch, bytes |-> b2, rel |-> "bwd"], DecExp(rsch', wsch, p[2], b2))
+                               /\ Case("xdec", [schema |-> wsch, wschema |-> rsch', val |-> p[2], rel |-> "xbwd"], DecExp(rsch', wsch, p[2], b2))
 \* ---- invariants on the documented format itself ----
 B == DocEnc(wsch, wv)
 Done == ph = "done"
